@@ -54,6 +54,9 @@ def judge_text(text, items=None):
     r = run_lexer(text, "")
     if items is None:
         items = lexref.scan(text)
+    if r.exc is not None:
+        return [("lexer:exception:" + r.exc,
+                 f"{text!r}: {r.exc_repr} after {len(r.toks)} tokens")], items, [], []
     if not r.terminated:
         return [("no-termination", f"{r.calls} calls")], items, [], []
     if "\n" in text:
@@ -358,7 +361,8 @@ def replay(rep):
     else:
         fl, items, _, _ = judge_text(t)
         print("reference:", items)
-        print("lexer:", run_lexer(t, "").events)
+        rr = run_lexer(t, "")
+        print("lexer:", rr.events, "exception:", rr.exc, rr.exc_repr)
     for sig, det in fl:
         print("FAIL", sig, det)
     print("oracle:", "violated" if fl else "fine")
